@@ -11,6 +11,7 @@
 #include <cstdint>
 #include <limits> // std::numeric_limits
 #include <memory>
+#include <string>
 #include <system_error>
 #include <utility> // std::move
 #include <vector>
@@ -26,6 +27,7 @@
 #include <jsoncons/sink.hpp>
 #include <jsoncons/utility/binary.hpp>
 #include <jsoncons/utility/unicode_traits.hpp>
+#include <jsoncons/utility/write_number.hpp>
 
 #include <jsoncons_ext/ubjson/ubjson_error.hpp>
 #include <jsoncons_ext/ubjson/ubjson_options.hpp>
@@ -478,6 +480,18 @@ private:
         {
             sink_.push_back(jsoncons::ubjson::ubjson_type::int64_type);
             binary::native_to_big(static_cast<int64_t>(val),std::back_inserter(sink_));
+        }
+        else
+        {
+            // UBJSON has no unsigned 64-bit type: write a high-precision number
+            std::string s;
+            jsoncons::from_integer(val, s);
+            sink_.push_back(jsoncons::ubjson::ubjson_type::high_precision_number_type);
+            put_length(s.length());
+            for (auto c : s)
+            {
+                sink_.push_back(static_cast<uint8_t>(c));
+            }
         }
         end_value();
         JSONCONS_VISITOR_RETURN;
